@@ -15,6 +15,7 @@ import (
 	"github.com/elementsproject/peerswap/clightning"
 	"github.com/elementsproject/peerswap/lnd"
 	"github.com/elementsproject/peerswap/swap"
+	"github.com/elementsproject/peerswap/txwatcher"
 	"github.com/lightningnetwork/lnd/lnrpc"
 	"go.etcd.io/bbolt"
 
@@ -653,6 +654,13 @@ func TestC05(t *testing.T) {
 			r.Count("histories_without_payment", 1)
 		}
 	})
+	// the same judgement with the real confirmation watchers in the loop (rpc and lnd), for opening transactions that
+	// confirmed long before the taker's start
+	txwatcher.VerifSetPolling(time.Millisecond, time.Millisecond)
+	rc := c05RealCases(r)
+	parallelDo(len(rc), 8, func(i int) { runC05Real(r, r.Seed*7529+int64(i)+1, rc[i]) })
+	rh, _ := r.Extra["real_watcher_histories"].(int)
+	r.Require(rh >= len(rc)*3/4, fmt.Sprintf("only %d of %d real-watcher histories completed", rh, len(rc)))
 	pa, _ := r.Extra["payment_attempts_judged"].(int)
 	r.Sample(map[string]any{"case": "out-sender, maker pre-broadcast 1 block before the taker's start, 504 blocks until the announcement, invoice cltv 504", "check": "now + (f+1 | f+3) < h_conf + 1008"})
 	r.Require(pa >= n/3, fmt.Sprintf("only %d payment attempts judged", pa))
